@@ -169,6 +169,8 @@ class Tr:
                 v = s.S(s.bvl(xc[1]), xc[1].size()) if xk == z3.Z3_OP_FPA_TO_FP else s.U(s.bvl(xc[1]), xc[1].size())
                 if v[1] > -(1 << 53) and v[2] < (1 << 53): return v            # int -> double -> int is the identity below 2^53
             r = s.uf('fp_to_%sbv%d_%s' % ('s' if sgn else 'u', w, str(ch[0]).replace('()', '')), 1)(s.fp_bits(x))
+            known = s.var_ranges.get(t.get_id())          # unsigned bounds on the converted value stated by the path condition
+            if known is not None and known[1] < (1 << (w - 1)): rng = (max(rng[0], known[0]), min(rng[1], known[1]))
             s.side.append(z3.And(r >= rng[0], r <= rng[1]))
             return r, rng[0], rng[1]
         if d == z3.Z3_OP_FPA_TO_IEEE_BV:
@@ -332,9 +334,17 @@ class Tr:
 
 def ranges_from(pc):
     """unsigned bounds for BV variables stated at the top level of the path condition (ULE/ULT/UGE/UGT var const)"""
-    rng = {}
+    rng = {}; parts = {}
     def note(v, lo=None, hi=None):
-        if not (z3.is_const(v) and v.decl().kind() == z3.Z3_OP_UNINTERPRETED and z3.is_bv(v)): return
+        if z3.is_bv(v) and v.decl().kind() == z3.Z3_OP_EXTRACT and v.arg(0).decl().kind() in (z3.Z3_OP_FPA_TO_SBV, z3.Z3_OP_FPA_TO_UBV):
+            # bounds on the high / low part of a double->integer conversion (as `x <= 2^31` compiles to): combined below
+            T = v.arg(0); h_, l_ = v.params()
+            pl, ph = parts.setdefault(T.get_id(), (T, {}))[1].get((h_, l_), (0, (1 << v.size()) - 1))
+            if lo is not None: pl = max(pl, lo)
+            if hi is not None: ph = min(ph, hi)
+            parts[T.get_id()][1][(h_, l_)] = (pl, ph)
+            return
+        if not (z3.is_bv(v) and ((z3.is_const(v) and v.decl().kind() == z3.Z3_OP_UNINTERPRETED) or v.decl().kind() in (z3.Z3_OP_FPA_TO_SBV, z3.Z3_OP_FPA_TO_UBV))): return
         l0, h0 = rng.get(v.get_id(), (0, (1 << v.size()) - 1))
         if lo is not None: l0 = max(l0, lo)
         if hi is not None: h0 = min(h0, hi)
@@ -367,6 +377,15 @@ def ranges_from(pc):
             if z3.is_bv_value(b): note(a, lo=b.as_long(), hi=b.as_long())
             elif z3.is_bv_value(a): note(b, lo=a.as_long(), hi=a.as_long())
     for c in pc: walk(c)
+    for tid, (T, ps) in parts.items():
+        w = T.size()
+        for (h_, l_), (pl, ph) in ps.items():
+            # the upper part [w-1 .. p] is known to be zero and the lower part [p-1 .. 0] is bounded: the whole value is bounded
+            if h_ == w - 1 and l_ > 0 and ph == 0 and (l_ - 1, 0) in ps:
+                ll_, lh_ = ps[(l_ - 1, 0)]
+                l0, h0 = rng.get(tid, (0, (1 << w) - 1)); rng[tid] = (max(l0, ll_), min(h0, lh_))
+            elif h_ == w - 1 and l_ > 0 and ph == 0:
+                l0, h0 = rng.get(tid, (0, (1 << w) - 1)); rng[tid] = (l0, min(h0, (1 << l_) - 1))
     return rng
 
 def _model_values(tr, m):
